@@ -80,6 +80,20 @@ pub fn check(rep: &mut Rep, tab: &[(i64, i64)], y: i32, m: u8, d: u8, h: u8, mi:
     }
     let (want, cls) = classify(tab, y as i64, m as u32, d as u32, h as u32, mi as u32, s as u32, ns);
     let det = || format!("maybe_from_gregorian({y},{m},{d},{h},{mi},{s},{ns},{:?})", ts);
+    if !(-30_000..=30_000).contains(&y) {
+        // Far years: the statement says nothing about dates whose count is not representable, nor about what a bound does to
+        // the computation on the way. A date is judged when its own year and the next, counted both from the scale's
+        // reference and from 1900-01-01 of the scale's calendar, are representable (one calendar year inside the range).
+        let z = crate::model::scale::greg_zero_ns(ts);
+        let y0 = count_of(&Fields { y: y as i64, m: 1, d: 1, h: 0, mi: 0, s: 0, ns: 0 }, ts);
+        let y1 = count_of(&Fields { y: y as i64 + 1, m: 12, d: 31, h: 23, mi: 59, s: 59, ns: 999_999_999 }, ts);
+        let inside = |v: i128| v > MIN_NS && v < MAX_NS;
+        if !(inside(y0) && inside(y1) && inside(y0 + z) && inside(y1 + z)) {
+            rep.class("dont-care/year-at-the-bounds");
+            return;
+        }
+        rep.class(if y < 0 { "far-year/negative" } else { "far-year/positive" });
+    }
     if cls == "valid" {
         if h == 0 && mi == 0 && s == 0 && ns == 0 {
             rep.class("valid/first-ns-of-day");
@@ -288,11 +302,17 @@ pub fn run(cfg: &Cfg, rep: &mut Rep) {
     // sampled years out to +-30000
     let nfar = if cfg.fuzz { FUZZ_ITERS } else { cfg.budget(16_000).max(200) };
     for _ in 0..nfar {
-        let y = match r.below(4) {
+        let y = match r.below(7) {
             0 => r.range_i64(-30000, 0),
             1 => r.range_i64(10000, 30000),
             2 => r.range_i64(-400, 400),
-            _ => r.range_i64(-30000, 30000),
+            3 => r.range_i64(-30000, 30000),
+            // the whole representable range (the duration bounds are about 3.27 million years either side of 1900) ...
+            4 => r.range_i64(-3_275_000, 3_278_800),
+            // ... and its last centuries, where an intermediate of the computation meets a bound before the result does
+            5 => if r.bool() { r.range_i64(-3_275_000, -3_274_600) } else { r.range_i64(3_278_300, 3_278_800) },
+            // years that alias an ordinary year modulo 2^16 (a table lookup or a cast on a narrower integer)
+            _ => r.range_i64(1900, 2030) + 65_536 * r.range_i64(-49, 49),
         } as i32;
         let m = 1 + r.below(12) as u8;
         let d = 1 + r.below(cal::dim(y as i64, m as u32) as u64) as u8;
@@ -352,6 +372,17 @@ pub fn run(cfg: &Cfg, rep: &mut Rep) {
     for y in 1960..=2030 {
         if (y as u32) % NSHARDS != sh || cfg.fuzz {
             continue;
+        }
+        // a 60th second in a year that aliases this one modulo 2^16 / 2^8 / 400 years: no leap second was ever inserted there
+        for k in [1i32, -1, 2, -2, 7, -7, 49, -49] {
+            for (yy, what) in [(y + 65_536 * k, 65_536), (y + 256 * k, 256), (y + 400 * k, 400)] {
+                let _ = what;
+                for (m, d) in [(6u8, 30u8), (12, 31)] {
+                    let ts = SCALES[((y + k) as usize + m as usize) % 9];
+                    check(rep, &tab, yy, m, d, 23, 59, 60, 0, ts, false);
+                    check(rep, &tab, yy, m, d, 23, 59, 59, 999_999_999, ts, false);
+                }
+            }
         }
         for (m, d) in [(6u8, 30u8), (12, 31), (3, 31), (6, 29), (12, 30), (1, 1), (7, 1)] {
             for ts in SCALES {
